@@ -82,8 +82,7 @@ def run(ctx):
     takers = sorted({b.key for b in nontest for blk, t in ctx.find_calls(b, r"^core::option::Option::<T>::take$")
                      if "alloc::vec::Vec<darling_core::error::Error>" in " ".join(mir.callee_info(t).get("targs", []))})
     ctx.ob("C07.who.take-only-in-into-inner", "Option<Vec<Error>>::take", "callers", takers == ["darling_core::error::Accumulator::into_inner"], "called from %s" % takers)
-    unit = [i for i in core["impls"] if i["trait"] == "darling_core::from_meta::FromMeta" and i["self"] == "()"]
-    ctx.ob("C07.who.unit-overrides-only-from-word", "<() as FromMeta>", "overridden hooks", len(unit) == 1 and unit[0]["items"] == ["from_word"], "items %s" % [u["items"] for u in unit])
+    common.unit_rejects_non_words(ctx, "C07.who.unit-overrides-only-from-word", core)
     f = ctx.fn("<darling_core::util::shape::ShapeSet as core::fmt::Display>::fmt")
     if f:
         for blk, t in ctx.find_calls(f, r"core::ops::index::Index<.*>>::index$"):
